@@ -1,2 +1,3 @@
 import Depccg.Props.C17Defs
+import Depccg.Props.C17Thms
 import Depccg.Generated.All
